@@ -8,7 +8,9 @@ from typing import Any, Dict, List, Optional, Tuple
 
 from engine.consteval import ConstEval, NotConstant
 from engine.index import AnalysisError, FuncInfo, calls_in, const_str, kwarg, unparse, walk_no_nested
-from engine.rowabs import ABSENT, RowInterp, Ser, Unsupported
+from engine.rowabs import ABSENT, NPRow, PDRow, Ser
+from engine.absint import ModuleEnv
+from engine.pyinterp import Function, Interp, InterpRaised, Unsupported
 
 SEG = "opendsm.eemeter.models.hourly_caltrack.segmentation"
 MODEL = "opendsm.eemeter.models.hourly_caltrack.model"
@@ -276,8 +278,11 @@ def run(chk):
         for k in range(len(cand) + 1):
             for sub in itertools.combinations(cand, k):
                 for T in temps:
-                    it = RowInterp(cb.node, {cb.params[0]: T}, {cb.params[1]: list(sub)})
-                    out = it.run()
+                    it = Interp(step_limit=20_000)
+                    try:
+                        out = Function(cb.node, ModuleEnv(chk.repo, cb.module, it, {"np": NPRow(), "numpy": NPRow(), "pd": PDRow(), "pandas": PDRow()}), it)(Ser(T), list(sub))
+                    except InterpRaised as e:
+                        out = f"raises {e.exc_name}"
                     if not isinstance(out, dict) or len(out) != len(sub) + 1:
                         fail = (sub, T, f"expected {len(sub)+1} bins, got {out!r}")
                         break
@@ -312,7 +317,6 @@ def run(chk):
             if fail:
                 break
     except Unsupported as e:
-        r5.violate(f"{cb.key}|interpretable", cb.where(), f"cannot establish the bin-feature table: construct outside the one-row abstraction: {e}")
-        fail = None
+        raise AnalysisError(f"{cb.key}: cannot establish the bin-feature table: construct outside the one-row abstraction: {e}")
     if fail:
         r5.violate(f"{cb.key}|bin-table", cb.where(), f"compute_temperature_bin_features: endpoints={list(fail[0])} T={fail[1]}: {fail[2]}", {"endpoints": list(fail[0]), "T": fail[1]})
